@@ -1,8 +1,10 @@
 /-
 C07 — property theorems. Explicit-bucket histogram first, then the base-2 exponential histogram.
-Helper lemmas are in Lemmas.lean.
+Helper lemmas are in Lemmas.lean, LemmasPlace.lean (run-level placement invariant) and LemmasIdx.lean (exact index).
 -/
 import Otel.C07.Lemmas
+import Otel.C07.LemmasPlace
+import Otel.C07.LemmasIdx
 namespace Otel.C07
 open Spec
 
@@ -204,19 +206,60 @@ theorem expo_placement_nonpos (L : Int → Val → Int) (s : Int) (hs : s ≤ 0)
     congr 1
     split <;> simp <;> omega
 
-/-! ### stated, not proved (checked by the oracle on every implementation result) -/
+/-! ### placement over whole runs and the exact index (proved; the oracle also checks them on every
+implementation result) -/
 
-/-- placement relative to `L`: at the end of every run each bucket holds exactly the recorded values whose
-index (as computed when they were recorded) shifted to the final scale is that bucket -/
-def expo_placement_statement : Prop :=
-  ∀ (L : Int → Val → Int) (maxSize : Nat) (maxScale : Int) (vs : List (Option Val)),
+/-- "places each non-zero value … re-scaling without losing or misplacing counts", relative to the index
+function `L`, over whole runs: at the end of every run (every `L` — no coherence needed —, every `maxSize`,
+`maxScale` and measurement sequence) each bucket of each sign holds exactly the recorded values whose index —
+as computed when they were recorded, at the scale `sa` in force then — shifted to the final scale `s`
+(`ia >>> (sa − s)`) is that bucket, every such index lies inside the bucket window, the zero count is the number
+of zero measurements and the count is zeros + recorded values (values left out by the scale-underflow return
+are counted nowhere). Proof: the multiset invariant `PInv` (LemmasPlace.lean) is kept by all four branches of
+`record` (zero bucket, underflow drop, downscale followed by `expoBuckets.record`, plain record). -/
+theorem expo_placement (L : Int → Val → Int) (maxSize : Nat) (maxScale : Int) (vs : List (Option Val)) :
     placedOK false (run L maxSize maxScale vs).1.scale (run L maxSize maxScale vs).2 (run L maxSize maxScale vs).1.pos = true ∧
     placedOK true (run L maxSize maxScale vs).1.scale (run L maxSize maxScale vs).2 (run L maxSize maxScale vs).1.neg = true ∧
-    tallyOK (run L maxSize maxScale vs).2 (run L maxSize maxScale vs).1 = true
+    tallyOK (run L maxSize maxScale vs).2 (run L maxSize maxScale vs).1 = true := by
+  have h := run_PInv L maxSize maxScale vs
+  exact ⟨placedOK_of_get false _ _ _ (h.place false), placedOK_of_get true _ _ _ (h.place true), h.tally⟩
 
-/-- the exact index satisfies the literal bucket inequality `base^i < |v| ≤ base^(i+1)` -/
-def expo_exact_index_statement : Prop :=
-  ∀ (s : Int) (v : Val), v.mant ≠ 0 → inExpoBucket s v (exactIdx s v) = true
+/-- the same fact per bucket, as an equation (the form the invariant has): for every sign and every absolute
+index `i`, the content of bucket `i` is the number of recorded values of that sign whose shifted index is `i` -/
+theorem expo_placement_get (L : Int → Val → Int) (maxSize : Nat) (maxScale : Int) (vs : List (Option Val))
+    (neg : Bool) (i : Int) :
+    Buckets.get ((run L maxSize maxScale vs).1.bucketOf neg) i =
+      ((run L maxSize maxScale vs).2.filterMap (finalIdx neg (run L maxSize maxScale vs).1.scale)).count i :=
+  (run_PInv L maxSize maxScale vs).place neg i
+
+/-- "the bucket i with base^i < |v| ≤ base^(i+1) for base = 2^(2^-scale)": the exact index `exactIdx s v`
+satisfies the literal inequality, in exact integer arithmetic (`inExpoBucket`: for `s ≥ 0`, with `N = 2^s`,
+`2^i < mant^N · 2^(ex·N) ≤ 2^(i+1)`; for `s < 0`, with `K = 2^-s`, `2^(i·K) < mant · 2^ex ≤ 2^((i+1)·K)`),
+for every scale and every non-zero value -/
+theorem expo_exact_index (s : Int) (v : Val) (hm : v.mant ≠ 0) : inExpoBucket s v (exactIdx s v) = true := by
+  by_cases hs : s ≥ 0
+  · exact exactIdx_nonneg_ok s hs v hm
+  · exact exactIdx_neg_ok s hs v hm
+
+/-- the bucket of the statement is unique: `i` satisfies `base^i < |v| ≤ base^(i+1)` exactly when it is the
+exact index — so comparing an observed index with `exactIdx` (what the oracle `classify` does) is the same as
+checking the literal inequality -/
+theorem expo_exact_index_unique (s : Int) (v : Val) (hm : v.mant ≠ 0) (i : Int) :
+    inExpoBucket s v i = true ↔ i = exactIdx s v := inExpoBucket_iff s v hm i
+
+/-- no int32 overflow: for every scale `≤ 20` and every non-zero finite binary64 magnitude
+(`2^-1074 ≤ |v| < 2^1024`, which is what `decode` produces: `expo_decode_finite`) the exact index lies in
+`[−1074·2^20 − 1, 2^30 − 1]` (the lower end is attained by the smallest subnormal at scale 20, example below),
+well inside int32; an index that is off by one (finding F14) still is -/
+theorem expo_no_int32_overflow (s : Int) (hs : s ≤ 20) (v : Val) (hf : FiniteNZ v) :
+    -1126170625 ≤ exactIdx s v ∧ exactIdx s v ≤ 1073741823 ∧
+    -2147483648 < exactIdx s v - 1 ∧ exactIdx s v + 1 < 2147483647 := by
+  have := exactIdx_range s hs v hf
+  omega
+
+/-- the hypothesis of `expo_no_int32_overflow` holds for every decoded IEEE-754 bit pattern that is not ±0 -/
+theorem expo_decode_finite (bits : Nat) (v : Val) (h : decode bits = some v) : v.mant = 0 ∨ FiniteNZ v :=
+  decode_finite bits v h
 
 /-! ### non-vacuity -/
 
@@ -226,6 +269,26 @@ def exL (s : Int) (v : Val) : Int := (v.ex * 8) >>> (6 - s).toNat
 set_option maxRecDepth 8000 in
 example : (run exL 2 3 [some ⟨false, 3, 0⟩, some ⟨false, 3, 5⟩, none, some ⟨true, 3, 1⟩, some ⟨false, 0, 0⟩]).1
     = ⟨1, ⟨0, [1, 1]⟩, ⟨0, [1]⟩, 1, 4, ⟨true, 3, 1⟩, ⟨false, 3, 5⟩, (93, 0)⟩ := by decide
+
+/-- `expo_placement` on a run with a 2-step downscale: the indices 1 and 2 recorded at scale 3 end in bucket 0
+at scale 1, the index 1 recorded at scale 1 is bucket 1 -/
+example : (run exL 2 3 [some ⟨false, 3, 1⟩, some ⟨false, 3, 2⟩, some ⟨false, 3, 5⟩]).1.pos = ⟨0, [2, 1]⟩ ∧
+    (run exL 2 3 [some ⟨false, 3, 1⟩, some ⟨false, 3, 2⟩, some ⟨false, 3, 5⟩]).2 =
+      [.val false 3 1 3 1 true, .val false 3 2 3 2 true, .val false 3 5 1 1 true] ∧
+    (run exL 2 3 [some ⟨false, 3, 1⟩, some ⟨false, 3, 2⟩, some ⟨false, 3, 5⟩]).2.filterMap (finalIdx false 1) =
+      [0, 0, 1] := by decide
+
+/-- `expo_exact_index` / `expo_no_int32_overflow`: 3 at scale 2 is in bucket 6 only (2^(6/4) < 3 ≤ 2^(7/4));
+5·2^10 at scale −3 is in bucket 1 only (2^8 < 5120 ≤ 2^16); the smallest subnormal (a `FiniteNZ` value) at
+scale 20 attains the lower end of the range -/
+example : exactIdx 2 ⟨false, 3, 0⟩ = 6 ∧ [5, 6, 7].map (inExpoBucket 2 ⟨false, 3, 0⟩) = [false, true, false] ∧
+    exactIdx (-3) ⟨false, 5, 10⟩ = 1 ∧ [0, 1, 2].map (inExpoBucket (-3) ⟨false, 5, 10⟩) = [false, true, false] ∧
+    decode 1 = some ⟨false, 1, -1074⟩ := by decide
+
+example : FiniteNZ ⟨false, 1, -1074⟩ ∧ exactIdx 20 ⟨false, 1, -1074⟩ = -1126170625 := by
+  refine ⟨⟨by decide, by decide, by decide⟩, ?_⟩
+  have h1 : Nat.log2 1 = 0 := by decide
+  simp [exactIdx, isPow2, Nat.one_pow, h1]
 
 /-- the coherence hypothesis of `expo_size_bound` is needed: with an index function that ignores the scale the
 same run ends with six positive buckets although `maxSize = 2` -/
